@@ -153,12 +153,19 @@ def run(F, res, tier):
     dw = FL.Defs(wf)
     sv = [b for b, t in wf.calls() if callee(t) == S + "set_vfs_file_content"]
     okw = bool(sv)
+    by_path = True
     for b in sv:
         gs = FL.gates(F, wf, [b], dw)
-        if not any(FL.short(g.get("callee")) == "HashMap::contains_key" and g["allowed"] == [False] for g in gs):
+        kinds = [_open_test(F, wf, dw, g) for g in gs]
+        if not any(kinds):
             okw = False
+        if "url" in kinds and "path" not in kinds:
+            by_path = False
     res.ob("D5", "watched-files/skip-opened", "a watched-file event reloads a file from disk only if the client does not have it open", okw, where=wf.loc(),
-           how="set_vfs_file_content sites %d, guarded by !opened_files.contains_key: %s" % (len(sv), okw))
+           how="set_vfs_file_content sites %d, guarded by a not-open test on opened_files: %s" % (len(sv), okw))
+    res.ob("D12", "watched-files/open-test-by-path", "the test whether the client has a watched file open compares decoded paths (what the store is keyed by), "
+           "not the spelling of the URI: `%61pp.gleam` names the open document `app.gleam`", okw and by_path, where=wf.loc(),
+           how="the guard is a hash lookup keyed by the Url" if not by_path else "the guard compares to_vfs_path()/to_file_path() results or looks up a path-keyed map")
     # client text flows unmodified: on_did_open passes params.text_document.text; on_did_change passes change.text
     od = F.fn(S + "on_did_open")
     dd = FL.Defs(od)
@@ -494,6 +501,34 @@ def analysis_gets_every_recorded_text(F, res, rule="D4"):
            how="set_file_content calls: %d, in a loop: %s, iterations that can skip it: %d" % (len(sets_), bool(loops_), len(skipped)))
 
 
+def _open_test(F, f, d, g):
+    """None | 'url' | 'path': is this gate a test that the client does NOT have the file open, and by what is it keyed"""
+    c = FL.short(g.get("callee") or "")
+    if g.get("allowed") != [False] or "call_t" not in g:
+        return None
+    t = g["call_t"]
+    last = c.rsplit("::", 1)[-1]
+    if last == "contains_key":
+        full = (t.get("fn") or {}).get("full") or ""
+        targs = " ".join((t.get("fn") or {}).get("targs") or [])
+        if "Url" in full + targs and not any(x in full + targs for x in ("VfsPath", "PathBuf", "FileId")):
+            return "url"
+        return "path"
+    if last in ("any", "contains"):
+        fields = FL.fields_feeding(F, f, d, t["args"][0], "Server")
+        if "opened_files" not in {str(x) for x in fields}:
+            return None
+        dep = FL.depends(F, f, d, t["args"][0])
+        calls = set(dep["calls"])
+        for ta in (t.get("fn") or {}).get("targs", []) or []:
+            for cp in F.closures_of(f.path) if hasattr(F, "closures_of") else []:
+                sp = F.fns[cp].d.get("span") or {}
+                if "{closure@" in ta and ":%s:" % sp.get("lo") in ta:
+                    calls |= {FL.short(callee(t2) or callee_def(t2) or "") for _b2, t2 in F.fns[cp].calls()}
+        return "path" if any(x.rsplit("::", 1)[-1] in ("to_vfs_path", "to_file_path") for x in calls) else "url"
+    return None
+
+
 def disk_text_never_replaces_a_known_file(F, res, rule="D11"):
     """D11: the client owns the text of the documents it has open, and the store is how the server remembers them. Wherever
     crate glas stores a text that was read from disk (its value depends on a read_to_string call), the call is reached only
@@ -529,7 +564,7 @@ def disk_text_never_replaces_a_known_file(F, res, rule="D11"):
             ok = False
             for g in FL.gates(F, f, [b], d):
                 gc = FL.short(g.get("callee") or "")
-                if gc.endswith("contains_key") and g["allowed"] == [False]:
+                if _open_test(F, f, d, g):
                     ok = True
                 elif gc.endswith("Vfs::file_for_path") and g["allowed"] == ["Err"]:
                     ok = True
